@@ -34,6 +34,101 @@ var c01Vals = []interface{}{
 	// 27..: same text, different content; nil vs empty; int vs float; upper case
 	[]interface{}{"1"}, map[interface{}]interface{}{"a": "1"}, []interface{}{1.0, 2.0}, []interface{}{"1 2"},
 	[]interface{}(nil), map[interface{}]interface{}(nil), 1, "X", []interface{}{[]interface{}(nil)},
+	// 36, 37: what [1] / [2] and {"a":1} become when the program changes the variable after the declaration
+	[]interface{}{"changed3"}, map[interface{}]interface{}{"a": 1.0, "changed": 1.0},
+}
+
+// c01EqualAsIs is the comparison the code applies to lists and maps today (reflect.DeepEqual's view): like
+// c01Equal, but a nil list/map differs from an empty one at every level
+func c01EqualAsIs(a, b interface{}) bool {
+	switch av := a.(type) {
+	case []interface{}:
+		bv, ok := b.([]interface{})
+		if !ok || len(av) != len(bv) || (av == nil) != (bv == nil) {
+			return false
+		}
+		for i := range av {
+			if !c01EqualAsIs(av[i], bv[i]) {
+				return false
+			}
+		}
+		return true
+	case map[interface{}]interface{}:
+		bv, ok := b.(map[interface{}]interface{})
+		if !ok || len(av) != len(bv) || (av == nil) != (bv == nil) {
+			return false
+		}
+		for k, v := range av {
+			w, ok := bv[k]
+			if !ok || !c01EqualAsIs(v, w) {
+				return false
+			}
+		}
+		return true
+	}
+	return c01Equal(a, b)
+}
+
+// c01AsIsClass is the class of table value i under c01EqualAsIs
+func c01AsIsClass(i int) int {
+	for j := 0; j < i; j++ {
+		if c01EqualAsIs(c01Vals[j], c01Vals[i]) {
+			return j
+		}
+	}
+	return i
+}
+
+// c01Changed is the value a list/map pattern variable holds after the program changed it
+// (list: first element replaced by a text that names the declared class, so that different patterns stay
+// different; map: one entry added); ok is false where the program leaves it alone
+func c01Changed(v interface{}, cls int) (interface{}, bool) {
+	switch val := v.(type) {
+	case []interface{}:
+		if len(val) == 0 {
+			return nil, false
+		}
+		out := append([]interface{}{}, val...)
+		out[0] = fmt.Sprintf("changed%d", cls)
+		return out, true
+	case map[interface{}]interface{}:
+		if len(val) == 0 {
+			return nil, false
+		}
+		out := map[interface{}]interface{}{}
+		for k, x := range val {
+			out[k] = x
+		}
+		out["changed"] = 1.0
+		return out, true
+	}
+	return nil, false
+}
+
+// c01TokClass is the class number of a value token
+func c01TokClass(tok string) int {
+	var cls int
+	fmt.Sscanf(tok[1:], "%d", &cls)
+	return cls
+}
+
+// c01ChangedTok adds the suffix m<class> to the token of a list/map pattern that comes from a variable
+func c01ChangedTok(tok string) string {
+	if tok[0] != 'D' {
+		return tok
+	}
+	ch, ok := c01Changed(c01TokVal(tok), c01TokClass(tok))
+	if !ok {
+		return tok
+	}
+	for j := range c01Vals {
+		if j != c01NaN && c01EqualAsIs(c01Vals[j], ch) {
+			return fmt.Sprintf("%sm%d", tok, c01AsIsClass(j))
+		}
+	}
+	var idx int
+	fmt.Sscanf(tok[strings.Index(tok, "i")+1:], "%d", &idx)
+	return fmt.Sprintf("%sm%d", tok, 2000+idx) // a value no event carries
 }
 
 // c01Equal is the equality of ECAL values the property means, decided structurally and independently of
@@ -118,6 +213,9 @@ func c01Tok(i int) string {
 	if c01Deep(v) {
 		k = "D"
 	}
+	if a := c01AsIsClass(i); a != cls {
+		return fmt.Sprintf("%s%di%da%d", k, cls, i, a)
+	}
 	return fmt.Sprintf("%s%di%d", k, cls, i)
 }
 
@@ -130,8 +228,8 @@ func c01TokVal(t string) interface{} {
 		n, _ := strconv.Atoi(t[1:])
 		return c01RegexC[n]
 	}
-	n, err := strconv.Atoi(t[strings.Index(t, "i")+1:])
-	if err != nil {
+	var n int
+	if _, err := fmt.Sscanf(t[strings.Index(t, "i")+1:], "%d", &n); err != nil {
 		panic("bad value token " + t)
 	}
 	return c01Vals[n]
@@ -217,9 +315,16 @@ func c01ClassTok(t string) string {
 func (c *c01Case) encode() string {
 	var rs, es []string
 	rxIDs := map[int]bool{}
-	for _, r := range c.rules {
+	for ri, r := range c.rules {
 		st := "N"
 		if !r.stateNil {
+			if c.mutate && c.level == "e" {
+				for k := range r.state {
+					if !strings.Contains(r.state[k].tok, "m") {
+						c.rules[ri].state[k].tok = c01ChangedTok(r.state[k].tok)
+					}
+				}
+			}
 			st = c01KVs(r.state)
 			for _, kv := range r.state {
 				if kv.tok[0] == 'X' {
@@ -266,6 +371,9 @@ func (c *c01Case) encode() string {
 		es = append(es, strings.Join(fields, ";"))
 		for _, kv := range e.state {
 			valToks[c01ClassTok(kv.tok)] = kv.tok
+			if a := strings.Index(kv.tok, "a"); a > 0 { // the class under the code's comparison has its own entry
+				valToks[kv.tok[:1]+kv.tok[a+1:]] = kv.tok
+			}
 		}
 	}
 	// truth table of Go's regexp for the (regex, value) pairs of the case
